@@ -15,10 +15,10 @@ def run(chk):
                   strat=lambda g: (g['lab']['opts']['days'], g['lab']['opts']['td'], g['lab']['opts']['dry'],
                                    g['lab']['opts']['consent'], bool(g['pre']['orph']), bool(g['pre']['strays'])),
                   per_stratum=12, thorough_seeds=1)
-    if chk.tier != 'quick':
-        common.gen_tt(chk, 'consent-tty', 'Init_Dates', 'Next_EmptyConsent', 10, 4000,
-                      strat=lambda g: (g['lab']['opts']['consent'], g['lab']['opts']['dry']), per_stratum=100,
-                      opts_fn=lambda g, seed: {'tty': g['lab']['opts']['consent'] != 'auto'})
+    # "a terminal on stdin": no -i on the command line, stdin is a pty, stdout is not
+    common.gen_tt(chk, 'consent-tty', 'Init_Dates', 'Next_EmptyConsent', 10, 300 if chk.tier == 'quick' else 4000,
+                  strat=lambda g: (g['lab']['opts']['consent'], g['lab']['opts']['dry']), per_stratum=40,
+                  opts_fn=lambda g, seed: {'tty': g['lab']['opts']['consent'] != 'auto'})
 
 
 def replay(path):
